@@ -95,6 +95,14 @@ class TermBuilder(object):
                     return base
                 key = '%s %s %d' % (base.key, '+' if total > 0 else '-', abs(total))
                 return Term(key, base.deps, base.volatile, base=base, off=total, node=e)
+            if isinstance(e.op, ast.Add) and l.const is not None and isinstance(l.const[0], int) and not isinstance(l.const[0], bool) and r.const is None:
+                # const + x
+                base = r.base if r.base is not None else r
+                total = (r.off if r.base is not None else 0) + l.const[0]
+                if total == 0:
+                    return base
+                key = '%s %s %d' % (base.key, '+' if total > 0 else '-', abs(total))
+                return Term(key, base.deps, base.volatile, base=base, off=total, node=e)
             if l.const is not None and r.const is not None:
                 try:
                     v = l.const[0] + r.const[0] if isinstance(e.op, ast.Add) else l.const[0] - r.const[0]
